@@ -150,7 +150,13 @@ impl SerialPort for SerDev {
     fn read_ring_indicator(&mut self) -> Result<bool> { Ok(false) }
     fn read_carrier_detect(&mut self) -> Result<bool> { Ok(true) }
     // what has arrived so far: the bytes in front of the next 'no data yet' / error answer
-    fn bytes_to_read(&self) -> Result<u32> { let s = self.0.lock().unwrap(); Ok(s.rx.iter().take_while(|t| **t < 256).count() as u32) }
+    fn bytes_to_read(&self) -> Result<u32> {
+        let mut s = self.0.lock().unwrap();
+        let n = s.rx.iter().take_while(|t| **t < 256).count() as u32;
+        // nothing has arrived and the script's next answer is 'no data yet': asking counts as that answer (time passes), as a read would
+        if n == 0 { if let Some(256) | Some(259) | Some(262) = s.rx.front().cloned() { s.rx.pop_front(); } }
+        Ok(n)
+    }
     fn bytes_to_write(&self) -> Result<u32> { Ok(0) }
     // discarding the input buffer discards exactly those bytes (what arrives later is unaffected); written bytes count as sent at once
     fn clear(&self, which: ClearBuffer) -> Result<()> {
